@@ -41,11 +41,25 @@
 (define-fun globF ((p String)) SLst (globSel (sitems (globRawS (str.++ p ".*"))) (strCount (str.++ p ".*") ".")))
 (define-fun globE ((p String)) Bool (isErr (globRawE (str.++ p ".*"))))
 ;   absBad dir ps / absList dir ps : the names ps, relative to dir, resolved to files; a name without a file is an error
-(define-fun-rec absBad ((dir String) (ps SLst)) Bool
+;   visP root p : p lies inside the root directory (C18: files outside the root are not visible - whether they exist must
+;                 not change which parents are found); visL root l : the visible ones of l, in order.
+;                 filepath.Abs / Rel / IsLocal are uninterpreted (with root "/" every absolute path is visible).
+(declare-fun pathAbsF (String) String)
+(declare-fun pathAbsE (String) ErrV)
+(declare-fun pathRelF (String String) String)
+(declare-fun pathRelE (String String) ErrV)
+(declare-fun pathIsLocal (String) Bool)
+(define-fun visP ((root String) (p String)) Bool
+  (and (not (isErr (pathAbsE p))) (not (isErr (pathRelE root (pathAbsF p)))) (pathIsLocal (pathRelF root (pathAbsF p)))))
+(define-fun-rec visL ((root String) (l SLst)) SLst
+  (ite ((_ is SNil) l) SNil (ite (visP root (shd l)) (SCons (shd l) (visL root (stl l))) (visL root (stl l)))))
+(define-fun-rec allVis ((root String) (l SLst)) Bool
+  (ite ((_ is SNil) l) true (and (visP root (shd l)) (allVis root (stl l)))))
+(define-fun-rec absBad ((root String) (dir String) (ps SLst)) Bool
   (ite ((_ is SNil) ps) false
-       (or (globE (pathJoin dir (shd ps))) (= (globF (pathJoin dir (shd ps))) SNil) (absBad dir (stl ps)))))
-(define-fun-rec absList ((dir String) (ps SLst)) SLst
-  (ite ((_ is SNil) ps) SNil (sapp (globF (pathJoin dir (shd ps))) (absList dir (stl ps)))))
+       (or (globE (pathJoin dir (shd ps))) (= (visL root (globF (pathJoin dir (shd ps)))) SNil) (absBad root dir (stl ps)))))
+(define-fun-rec absList ((root String) (dir String) (ps SLst)) SLst
+  (ite ((_ is SNil) ps) SNil (sapp (visL root (globF (pathJoin dir (shd ps)))) (absList root dir (stl ps)))))
 ;   the $parent entries of a file's documents (h: Document.Data of every document, ds: the file's documents in order):
 ;   dirStrs: the names given (a string, or a list of strings), dirNo: some document says false / null,
 ;   dirBad: some document says true, or gives a list with a non-string
@@ -71,19 +85,19 @@
   (ite (or (isStdinF p) (= (fnParts p) 2)) (Slice SNil) (Slice (SCons (findFileF (parentLayerPath p)) SNil))))
 ; ---- which layers a file inherits from: its $parent directives win, then (for a symbolic link) the name of the link's
 ;      target, then its own name. SliceNil = "this rule does not apply"; an empty list = "no parents".
-(define-fun dirE ((h (Array Int Val)) (ds RLst) (dir String)) Bool
+(define-fun dirE ((h (Array Int Val)) (ds RLst) (root String) (dir String)) Bool
   (or (dirBad h ds)
       (and (dirNo h ds) (not (= (dirStrs h ds) SNil)))
-      (and (not (dirNo h ds)) (absBad dir (dirStrs h ds)))))
-(define-fun dirS ((h (Array Int Val)) (ds RLst) (dir String)) SSlice
-  (ite (dirNo h ds) (Slice SNil) (ite (= (dirStrs h ds) SNil) SliceNil (Slice (absList dir (dirStrs h ds))))))
+      (and (not (dirNo h ds)) (absBad root dir (dirStrs h ds)))))
+(define-fun dirS ((h (Array Int Val)) (ds RLst) (root String) (dir String)) SSlice
+  (ite (dirNo h ds) (Slice SNil) (ite (= (dirStrs h ds) SNil) SliceNil (Slice (absList root dir (dirStrs h ds))))))
 (define-fun symE ((p String)) Bool
   (and (not (isStdinF p)) (or (isErr (evalSymlinksE p)) (and (not (= (evalSymlinksF p) p)) (fnE (evalSymlinksF p))))))
 (define-fun symS ((p String)) SSlice
   (ite (or (isStdinF p) (= (evalSymlinksF p) p)) SliceNil (fnS (evalSymlinksF p))))
-(define-fun parentsE ((h (Array Int Val)) (ds RLst) (p String)) Bool
-  (or (dirE h ds (pathDir p))
-      (and (= (dirS h ds (pathDir p)) SliceNil) (or (symE p) (and (= (symS p) SliceNil) (fnE p))))))
-(define-fun parentsS ((h (Array Int Val)) (ds RLst) (p String)) SSlice
-  (ite (not (= (dirS h ds (pathDir p)) SliceNil)) (dirS h ds (pathDir p))
+(define-fun parentsE ((h (Array Int Val)) (ds RLst) (root String) (p String)) Bool
+  (or (dirE h ds root (pathDir p))
+      (and (= (dirS h ds root (pathDir p)) SliceNil) (or (symE p) (and (= (symS p) SliceNil) (fnE p))))))
+(define-fun parentsS ((h (Array Int Val)) (ds RLst) (root String) (p String)) SSlice
+  (ite (not (= (dirS h ds root (pathDir p)) SliceNil)) (dirS h ds root (pathDir p))
   (ite (not (= (symS p) SliceNil)) (symS p) (fnS p))))
